@@ -59,8 +59,10 @@ def main():
         'checks': checks,
         'not_applicable': na,
         'notes': 'Exit 0 = all obligations discharged (KNOWN-FINDING lines for listed genuine defects), exit 1 + '
-                 'VIOLATION line = unlisted violation, exit 2 + ANALYSIS-ERROR = no verdict (anchor vanished / '
-                 'unrecognised shape / checker crashed). See DESIGN.md.',
+                 'VIOLATION line = unlisted violation (including rule E0.argument-lost: an anchored construct vanished or has a '
+                 'shape on which the structural argument can no longer be made, so the obligation is not discharged), exit 2 + '
+                 'ANALYSIS-ERROR = the analysis itself could not run (clang failed, a source does not parse, checker crashed, '
+                 'self-test failed). See DESIGN.md 1.3.',
     }
     path = os.path.join(HERE, 'MANIFEST.json')
     with open(path, 'w') as f:
